@@ -22,8 +22,7 @@ VARIABLES cfgs,          \* [{"c1","c2"} -> configuration | NoneV (not built yet
 vars == <<cfgs, ev, steps>>
 St == [cfgs |-> cfgs]
 
-S == Bind(TheSchema, IF TheSchema.senv = "auto" THEN <<>>
-                     ELSE IF IsName(TheSchema.senv) THEN TheSchema.senv ELSE "none")
+S == Bind(TheSchema, RootPrefix(TheSchema))
 Names == {"c1", "c2"}
 
 Init ==
